@@ -272,3 +272,24 @@ def gen_dense_kernel(isa, rng, n, shape=None):
                 L.append(g.op2(d, a, b, which=0))
     L.extend(g.loop_end(7))
     return shape, "\n".join(L) + "\n"
+
+
+def windowed_cases(rng, n, arm_models=("tx2", "n1", "a64fx", "tsv110")):
+    """Real compiler output above the 50-line threshold without padding: `--lines a-b` windows of the
+    long shipped files (whole functions with directives, labels and calls)."""
+    tf = os.path.join(env.REPO, "tests", "test_files")
+    files = [("triad_x86_unmarked.s", "x86"), ("triad_x86_iaca.s", "x86"), ("triad_arm_iaca.s", "aarch64")]
+    out = []
+    for j in range(n):
+        base, isa = files[j % len(files)]
+        p = os.path.join(tf, base)
+        if not os.path.exists(p):
+            continue
+        text = open(p).read()
+        nlines = text.count("\n")
+        width = rng.choice([70, 90, 120, 160])
+        a = rng.randint(1, max(2, nlines - width))
+        out.append({"name": "tests/test_files/%s[%d-%d]" % (base, a, a + width), "isa": isa,
+                    "arch": "zen1" if isa == "x86" else arm_models[j % len(arm_models)],
+                    "text": text, "lines": "%d-%d" % (a, a + width)})
+    return out
